@@ -152,7 +152,15 @@ fn pkgname_line() -> BoxedStrategy<String> {
 
 fn lines_strategy(tier: Tier, faults: bool) -> BoxedStrategy<Vec<String>> {
     let max_rec = tier.pick(4, 6);
-    let record = (pkgname_line(), prop::collection::vec(key_line(faults), 0..10)).prop_map(|(p, mut ls)| {
+    // one record in twelve has a chosen number (0-40) of distinct unknown keys in front of, or
+    // between, its other lines
+    let record = (pkgname_line(), prop::collection::vec(key_line(faults), 0..10), prop::option::weighted(0.08, (crate::engine::gen::interesting_len(40), any::<u16>()))).prop_map(|(p, mut ls, many)| {
+        if let Some((n, at)) = many {
+            let k = idx(at, ls.len() + 1);
+            for i in 0..n {
+                ls.insert(k, format!("UNKNOWN_{}=v{}", i, i));
+            }
+        }
         ls.insert(0, p);
         ls
     });
